@@ -446,13 +446,26 @@ def clause_e(c: Check):
              'two types share an identifier: %s' % seen, TS)
     # the container gets the value type of the setup that parsed the value
     ps = ix.func('exactly_lib.impls.instructions.multi_phase.define_symbol.parser:_parse')
-    rets = [n.value for n in walk_own(ps.node) if isinstance(n, ast.Return)]
-    ok = len(rets) == 1 and isinstance(rets[0], ast.Tuple) and len(rets[0].elts) == 3 \
-         and unparse(rets[0].elts[1]) == 'ts.value_type' and unparse(rets[0].elts[2]) == 'value_sdv'
-    b = ps.local_bindings().get('value_sdv', [])
-    ok = ok and any(x[0] == 'assign' and unparse(x[1]).startswith('ts.parser.parse(') for x in b)
-    b = ps.local_bindings().get('ts', [])
-    ok = ok and any(x[0] == 'assign' and unparse(x[1]) == 'type_setup.TYPE_SETUPS[type_str]' for x in b)
+    ok = False
+    n_ret = 0
+    for p in util.func_paths(ix, fo, ps, Hooks()):
+        if p.kind != 'return':
+            continue
+        n_ret += 1
+        v = p.val
+        good = isinstance(v, ListVal) and len(v.items) == 3
+        if good:
+            vt_base, vt_names = util.attr_chain(v.items[1])
+            vo = v.items[2].origin if isinstance(v.items[2], Sym) else None
+            good = vt_names == ('value_type',) and bool(vo) and vo[0] == 'call' and vo[5] is not None
+            if good:
+                cv = p.trace[vo[5]].data.get('callee_val')
+                pb, pn = util.attr_chain(cv) if cv is not None else (None, ())
+                good = pn == ('parser', 'parse') and util.root_sym(pb) is util.root_sym(vt_base)
+                so = util.root_sym(vt_base).origin if isinstance(util.root_sym(vt_base), Sym) else None
+                good = good and bool(so) and so[0] == 'index'
+        ok = good if n_ret == 1 else (ok and good)
+    ok = ok and n_ret >= 1
     c.expect(ok, 'C08-e', '_parse/type-and-value-from-one-setup', 'value type and value parser are not taken from the '
                                                                   'same type setup', ps.loc())
 
